@@ -730,6 +730,9 @@ func (g *Graph) factsLattice() Lattice[Facts] {
 										n.setRel(token.EQL, lhs, rhs, true)
 									} else if rid, ok := rhs.(*ast.Ident); ok && rid.Name != lhsStr {
 										n.setRel(token.EQL, lhs, rhs, true)
+									} else if _, ok := rhs.(*ast.SelectorExpr); ok && isFieldPath(rhs) && !mentions(exprStr(rhs), lhsStr) {
+										// a local copy of a field
+										n.setRel(token.EQL, lhs, rhs, true)
 									}
 								}
 							}
